@@ -51,33 +51,8 @@ def check(run: Run) -> None:
             ok = ("eqn.lhs" in s0.attrs or "lhs" in s0.attr_names) and ("eqn.rhs" in s1.attrs or "rhs" in s1.attr_names) and "rhs" not in s0.attr_names and "lhs" not in s1.attr_names
         if not ok:
             run.violate("Q2", f"{MOD}:apply", a.mod, r.ast, "apply does not return Eq(f(lhs), f(rhs))")
-    # ---- Q4
-    g = Fn(w, MOD, "solve_for_scalar")
-    for r in g.cfg.returns():
-        run.ob("Q4", "solve_for_scalar")
-        v = r.ast.value
-        ok = isinstance(v, ast.ListComp) and isinstance(v.elt, ast.Call) and dotted(v.elt.func) == "Eq" and len(v.generators) == 1 and isinstance(v.generators[0].target, ast.Tuple) \
-            and [dotted(x) for x in v.elt.args] == [dotted(e) for e in v.generators[0].target.elts] and isinstance(v.generators[0].iter, ast.Call) \
-            and isinstance(v.generators[0].iter.func, ast.Attribute) and v.generators[0].iter.func.attr == "items"
-        if ok:
-            sl = g.slice(r, v.generators[0].iter)
-            ok = any(c.endswith("sym_solve") or c == "solve" for c in sl.calls) and {"f", "symbol"} <= sl.params
-        if not ok:
-            run.violate("Q4", f"{MOD}:solve_for_scalar", g.mod, r.ast, "solve_for_scalar does not return [Eq(symbol, solution) for symbol, solution in solve(f, symbol, dict=True)[0].items()]")
-    run.ob("Q4", "solutions-are-verified")
-    for x in ast.walk(g.fn):
-        bad = None
-        if isinstance(x, ast.keyword) and x.arg == "check" and isinstance(x.value, ast.Constant) and x.value.value is False:
-            bad = x.value
-        if isinstance(x, ast.Call) and isinstance(x.func, ast.Attribute) and x.func.attr in ("setdefault", "update", "__setitem__") and x.args \
-                and isinstance(x.args[0], ast.Constant) and x.args[0].value == "check":
-            bad = x
-        if isinstance(x, ast.Assign) and any(isinstance(t, ast.Subscript) and isinstance(t.slice, ast.Constant) and t.slice.value == "check" for t in x.targets) \
-                and isinstance(x.value, ast.Constant) and x.value.value is False:
-            bad = x
-        if bad is not None:
-            run.violate("Q4", f"{MOD}:solve_for_scalar:check-disabled", g.mod, bad,
-                        "solve_for_scalar switches off sympy.solve's verification of candidate solutions (check=False): extraneous roots are returned as solutions")
+    # ---- Q4: solve_for_scalar evaluated abstractly against a stand-in for sympy.solve
+    _q4(run, mod)
     # ---- Q5: is_vector_expr evaluated abstractly on a table of small expressions
     _q5(run)
 
@@ -413,3 +388,64 @@ def _strip_one(t: T) -> T:
     while t.op == "mul" and t.args[0].op == "num" and t.args[0].val == 1:
         t = t.args[1]
     return t
+
+
+def _q4(run: Run, mod) -> None:
+    """the returned list consists of equations Eq(unknown, root) taken from ONE solution of sympy.solve(f, symbol, dict=True), never of a root that
+    contradicts the unknown's assumptions (such an Eq evaluates to False), and solve's own verification of candidates is not switched off"""
+    x, y = var("x"), var("y")
+    good1, good2, bad = var("root1"), var("root2"), var("contradictory_root")
+
+    class R(PyReader):
+
+        def __init__(self, solutions):
+            super().__init__(mod.tree, "solve_for_scalar")
+            self.solutions = solutions
+            self.solve_kwargs = None
+
+        def hook_call(self, n, env, fns):
+            name = (dotted(n.func) or "").split(".")[-1]
+            if name in ("sym_solve", "solve") and len(n.args) >= 2:
+                kw_ = {k.arg: self.ev(k.value, env, fns) for k in n.keywords if k.arg}
+                for k in n.keywords:
+                    if k.arg is None:
+                        extra = self.ev(k.value, env, fns)
+                        if isinstance(extra, dict):
+                            kw_.update(extra)
+                self.solve_kwargs = kw_
+                return [dict(d_) for d_ in self.solutions]
+            if name == "Eq" and len(n.args) == 2:
+                l, r = self.ev(n.args[0], env, fns), self.ev(n.args[1], env, fns)
+                if r == bad:
+                    return False  # SymPy evaluates Eq(norm(v), <negative>) to BooleanFalse
+                return ("eq", l, r)
+            return NotImplemented
+
+    cases = [
+        ("one solution", [{x: good1}], [[("eq", x, good1)]]),
+        ("first root contradicts the unknown", [{x: bad}, {x: good2}], [[("eq", x, good2)]]),
+        ("two unknowns", [{x: good1, y: good2}], [[("eq", x, good1), ("eq", y, good2)], [("eq", y, good2), ("eq", x, good1)]]),
+        ("no solution", [], [[]]),
+    ]
+    for label, sols, accepted in cases:
+        rd = R(sols)
+        run.ob("Q4", label)
+        try:
+            got = rd.call("solve_for_scalar", [var("f"), x])
+        except Raised as r:
+            got = r
+        if isinstance(got, Raised) and label == "no solution":
+            continue  # a refusal is as good as an empty list
+        ok = isinstance(got, list) and any(got == a_ for a_ in accepted)
+        if not ok:
+            shown = ("raises " + got.exc) if isinstance(got, Raised) else repr(got)[:120]
+            run.violate("Q4", f"{MOD}:solve_for_scalar:{label}", mod, mod.tree,
+                        f"solve_for_scalar, when sympy.solve returns {sols!r}: got {shown}; expected the equations Eq(unknown, root) of one solution whose roots do not contradict "
+                        f"the unknown (an Eq with such a root evaluates to False, which is no equation)")
+        kw_ = rd.solve_kwargs or {}
+        run.ob("Q4", f"{label}:solve-flags")
+        if kw_.get("dict") is not True:
+            run.violate("Q4", f"{MOD}:solve_for_scalar:dict-flag", mod, mod.tree, "sympy.solve is not called with dict=True: the pairing of unknowns and roots is lost")
+        if kw_.get("check", True) is False:
+            run.violate("Q4", f"{MOD}:solve_for_scalar:check-disabled", mod, mod.tree,
+                        "solve_for_scalar switches off sympy.solve's verification of candidate solutions (check=False): extraneous roots are returned as solutions")
